@@ -135,28 +135,33 @@ func Translate(v *vrt.Ctx) {
 	}
 	rs := resource.NewDbResource(store)
 	rs.With(db.DATATYPE_STATICLOAD)
-	useLang := v.Bool("lookup-in-norwegian")
-	lctx := ctx
-	if useLang {
-		lctx = context.WithValue(ctx, "Language", nor)
-	}
-	tpl, err := rs.GetTemplate(lctx, "node")
-	v.Assert(err == nil, "C18/template-found")
-	menu, err := rs.GetMenu(lctx, "label")
-	v.Assert(err == nil, "C18/menu-found")
-	fn, err := rs.FuncFor(lctx, "stat")
-	v.Assert(err == nil && fn != nil, "C18/static-found")
-	res, _ := fn(lctx, "stat", nil)
-	want := func(have bool, tr, def string) string {
-		if useLang && have {
-			return tr
+	// the same resource answers several lookups in a row, each in a language
+	// of its own (a session switches language; sessions share a resource):
+	// every answer follows the language of that lookup, not of an earlier one
+	for round := 0; round < 2; round++ {
+		useLang := v.Bool("lookup-in-norwegian")
+		lctx := ctx
+		if useLang {
+			lctx = context.WithValue(ctx, "Language", nor)
 		}
-		return def
+		tpl, err := rs.GetTemplate(lctx, "node")
+		v.Assert(err == nil, "C18/template-found")
+		menu, err := rs.GetMenu(lctx, "label")
+		v.Assert(err == nil, "C18/menu-found")
+		fn, err := rs.FuncFor(lctx, "stat")
+		v.Assert(err == nil && fn != nil, "C18/static-found")
+		res, _ := fn(lctx, "stat", nil)
+		want := func(have bool, tr, def string) string {
+			if useLang && have {
+				return tr
+			}
+			return def
+		}
+		v.Assert(tpl == want(haveTpl, "norsk mal", "default template"), "C18/translation-else-default")
+		v.Assert(menu == want(haveMenu, "norsk etikett", "default label"), "C18/translation-else-default")
+		v.Assert(res.Content == want(haveStatic, "norsk statisk", "default static"), "C18/translation-else-default")
+		v.Observe("tpl", tpl)
 	}
-	v.Assert(tpl == want(haveTpl, "norsk mal", "default template"), "C18/translation-else-default")
-	v.Assert(menu == want(haveMenu, "norsk etikett", "default label"), "C18/translation-else-default")
-	v.Assert(res.Content == want(haveStatic, "norsk statisk", "default static"), "C18/translation-else-default")
-	v.Observe("tpl", tpl)
 	v.Cover("C18/translate")
 }
 
